@@ -719,9 +719,16 @@ def check_C13(tier: str, seed: int) -> int:
                 fr = ase.Frame(chunks=[ase.LayerChunk(name="a"), ase.CelChunk(layer=0, w=cw, h=chh, pixels=px, ctype_cel=ct, zlevel=0)])
                 bigs.append(("big%d_cel%d" % (k, ct), ase.serialize(ase.Sprite(width=4, height=4, frames=[ase.Frame(), fr]))))
         bigs.append(("big_mask", ase.serialize(ase.Sprite(width=1, height=1, frames=[ase.Frame(chunks=[ase.LayerChunk(), ase.RawChunk(ase.CT_MASK, b"m" * 70000)])]))))
+        # a last frame of several hundred small chunks (an atlas with 300 slices; 700 user-data chunks): the cut may fall after any of them
+        bigs.append(("many_slices", ase.serialize(ase.Sprite(width=8, height=8, frames=[ase.Frame(chunks=[ase.LayerChunk(name="a")]), ase.Frame(chunks=[
+            ase.SliceChunk(name="s%d" % i, keys=[ase.SliceKey(frame=0, x=i, y=1, w=2, h=2)]) for i in range(300)])]))))
+        bigs.append(("many_userdata", ase.serialize(ase.Sprite(width=1, height=1, frames=[ase.Frame(chunks=[ase.LayerChunk(name="a")] + [
+            ase.UserDataChunk(text="u%d" % i) for i in range(700)])]))))
         for name, data in bigs:
             end = end_of_last_frame(data)
             cuts = set(range(max(0, len(data) - 40), len(data) + 1)) | set(range(0, len(data), 4093 if tier == "quick" else 509))
+            if name.startswith("many_"):
+                cuts |= set(range(0, len(data), 37 if tier == "quick" else 3))
             for blk in (8192, 65536):
                 for q in range(1, len(data) // blk + 1):
                     cuts |= {q * blk - 1, q * blk, q * blk + 1}
@@ -1140,6 +1147,9 @@ def check_C02(tier, seed):
             out.append((s, gen.encode(s, None, rng)))
         for g in range(16 if tier == "quick" else 96):
             s = covering_sprite(g, rng)
+            out.append((s, gen.encode(s, None, rng)))
+        for _ in range(30 if tier == "quick" else 300):
+            s = occluder_sprite(rng)
             out.append((s, gen.encode(s, None, rng)))
         return out
     return run_sprites("C02", tier, seed, 2, 300, 4000, dict(max_canvas=10, max_layers=8, max_frames=3, rich=False), [1, 22],
@@ -1642,7 +1652,10 @@ def forest_sprite(levels: List[int], flags: List[int], rng: random.Random) -> di
                 cels[(0, i)] = {"kind": "raw", "x": i % W, "y": i // W, "w": 1, "h": 1, "opacity": 255,
                                 "pixels": [((10 + i) & 255, 20, 30, 255)], "ud": None}
     tilesets = [{"id": 0, "count": 2, "tw": 1, "th": 1, "base": 1, "name": "t", "ext": None, "empty0": True, "pixels": [(0, 0, 0, 0), (200, 100, 50, 255)]}]
-    return {"width": W, "height": H, "depth": 32, "transparent": 0, "durations": [100], "speed": 100, "palette_chunks": [],
+    # a second frame in which every leaf holds a LINKED cel (to its cel of frame 0): visibility applies to those like to any cel
+    for (f0, i) in list(cels):
+        cels[(1, i)] = {"kind": "linked", "frame": 0, "x": 0, "y": 0, "opacity": 255, "ud": None}
+    return {"width": W, "height": H, "depth": 32, "transparent": 0, "durations": [100, 100], "speed": 100, "palette_chunks": [],
             "palette": None, "sprite_ud": None, "ext_files": [], "tilesets": tilesets if any(l["ltype"] == 2 for l in layers) else [],
             "layers": layers, "cels": cels, "tags": [], "has_tags_chunk": False, "slices": []}
 
@@ -1682,6 +1695,34 @@ def covering_sprite(g: int, rng: random.Random) -> dict:
             "has_tags_chunk": False, "slices": []}
 
 
+def occluder_sprite(rng: random.Random) -> dict:
+    """a layer above the bottom one that LOOKS like an occluder - visible, flagged background, Normal mode, layer and cel opacity
+    255, a stored cel covering the canvas exactly (or more) - but whose pixels are partly translucent or transparent: what lies
+    below must still show through"""
+    W, H = rng.randint(1, 5), rng.randint(1, 4)
+    nbelow = rng.randint(1, 3)
+    layers, cels = [], {}
+
+    def img(w, h, alphas):
+        return [(rng.randrange(256), rng.randrange(256), rng.randrange(256), rng.choice(alphas)) for _ in range(w * h)]
+    for i in range(nbelow):
+        layers.append({"flags": 1, "ltype": 0, "level": 0, "blend": rng.choice([0, 0, 1, 16]), "opacity": rng.choice([255, 200]), "name": "below%d" % i,
+                       "tileset": 0, "ud": None, "default_w": 0, "default_h": 0})
+        cels[(0, i)] = {"kind": "raw", "x": 0, "y": 0, "w": W, "h": H, "opacity": 255, "pixels": img(W, H, [255, 255, 128]), "ud": None}
+    grow = rng.choice([0, 0, 1])
+    layers.append({"flags": 1 | 8 | rng.choice([0, 2, 4]), "ltype": 0, "level": 0, "blend": 0, "opacity": 255, "name": "bg-flagged", "tileset": 0, "ud": None,
+                   "default_w": 0, "default_h": 0})
+    cels[(0, nbelow)] = {"kind": rng.choice(["raw", "zlib"]), "x": -grow, "y": -grow, "w": W + 2 * grow, "h": H + 2 * grow, "opacity": 255,
+                         "pixels": img(W + 2 * grow, H + 2 * grow, [0, 0, 128, 255, 1, 254]), "ud": None}
+    if rng.random() < 0.5:
+        layers.append({"flags": 1, "ltype": 0, "level": 0, "blend": rng.randrange(19), "opacity": rng.choice([255, 77]), "name": "above", "tileset": 0, "ud": None,
+                       "default_w": 0, "default_h": 0})
+        cels[(0, nbelow + 1)] = {"kind": "raw", "x": 0, "y": 0, "w": 1, "h": 1, "opacity": 255, "pixels": img(1, 1, [255, 100]), "ud": None}
+    return {"width": W, "height": H, "depth": 32, "transparent": 0, "durations": [100], "speed": 100, "palette_chunks": [],
+            "palette": None, "sprite_ud": None, "ext_files": [], "tilesets": [], "layers": layers, "cels": cels, "tags": [],
+            "has_tags_chunk": False, "slices": []}
+
+
 def direct_C09(s, data, blk) -> List[str]:
     out = []
     levels = [l["level"] for l in s["layers"]]
@@ -1697,16 +1738,20 @@ def direct_C09(s, data, blk) -> List[str]:
             out.append("parent %d of layer %d does not have a lower id" % (l[7], i))
         if l[8] != vis[i]:
             out.append("is_visible(layer %d) = %d, flags of it and its ancestors give %d (levels %s)" % (i, l[8], vis[i], levels))
-    im = images_of(blk, 22).get((0,))
-    if im is not None:
+    for fno in range(len(s["durations"])):
+        im = images_of(blk, 22).get((fno,))
+        if im is None:
+            continue
         W, H = s["width"], s["height"]
         for i in range(len(levels)):
-            c = s["cels"].get((0, i))
+            c = s["cels"].get((fno, i))
+            if c is not None and c["kind"] == "linked":
+                c = s["cels"].get((c["frame"], i))
             if c is None or not (0 <= c["x"] < W and 0 <= c["y"] < H):
                 continue
             shown = im[2 + c["y"] * W + c["x"]] != 0
             if shown != bool(vis[i]):
-                out.append("layer %d (visible=%d) %s in the frame image" % (i, vis[i], "shows" if shown else "does not show"))
+                out.append("layer %d (visible=%d) %s in the image of frame %d" % (i, vis[i], "shows" if shown else "does not show", fno))
     return out[:3]
 
 
@@ -2023,6 +2068,22 @@ def blend_same_image(mode: int, rng: random.Random):
     return ase.serialize(ase.Sprite(width=W, height=H, frames=[fr])), B, list(P), lo1, 255
 
 
+def blend_linked_image(mode: int, rng: random.Random):
+    """frame 0 holds LINKED cels only: both layers link to their cels in frame 1 (layer and cel opacities strictly inside
+    1..254): a linked cel is drawn with the position, pixels and opacity of the cel it links to, once"""
+    W, H = rng.randint(1, 6), rng.randint(1, 4)
+    lo, co = rng.choice([(200, 150), (100, 103), (255, 128), (77, 254), (rng.randrange(1, 255), rng.randrange(1, 255))])
+    B = [(rng.randrange(256), rng.randrange(256), rng.randrange(256), rng.choice([255, 255, 128, 0])) for _ in range(W * H)]
+    S = [(rng.randrange(256), rng.randrange(256), rng.randrange(256), rng.choice([255, 255, 180, 1])) for _ in range(W * H)]
+    fr0 = ase.Frame(chunks=[
+        ase.LayerChunk(flags=1, blend=0, opacity=255, name="b"), ase.LayerChunk(flags=1, blend=mode, opacity=lo, name="s"),
+        ase.CelChunk(layer=0, ctype_cel=1, linked=1, opacity=rng.choice([255, 9])), ase.CelChunk(layer=1, ctype_cel=1, linked=1, opacity=rng.choice([255, co, 33]))])
+    fr1 = ase.Frame(chunks=[
+        ase.CelChunk(layer=0, w=W, h=H, pixels=ase.rgba_bytes(B), ctype_cel=rng.choice([0, 2])),
+        ase.CelChunk(layer=1, w=W, h=H, opacity=co, pixels=ase.rgba_bytes(S), ctype_cel=rng.choice([0, 2]))])
+    return ase.serialize(ase.Sprite(width=W, height=H, frames=[fr0, fr1])), B, S, lo, co
+
+
 def blend_offset_image(mode: int, rng: random.Random):
     """two-layer sprite whose upper cel is smaller than / shifted against / partly outside the canvas, with runs of opaque,
     translucent and transparent pixels in its rows; S[k] is None where the cel does not cover canvas pixel k"""
@@ -2145,6 +2206,10 @@ def blend_check(prop: str, tier: str, seed: int) -> int:
             for j in range(8 if quick else 60):
                 data, B, S, lo, co = blend_apart_image(m, rng)
                 cases.append((m, -1, "apart", w.put(data), B, S, lo, co))
+            # frame 0 made of linked cels
+            for j in range(4 if quick else 40):
+                data, B, S, lo, co = blend_linked_image(m, rng)
+                cases.append((m, -1, "linked", w.put(data), B, S, lo, co))
             # cels of more than 65536 pixels
             if m in (0, 1, 2, 9, 12) or not quick:
                 data, B, S, lo, co = blend_wide_image(m, rng)
@@ -2323,6 +2388,18 @@ def check_C07(tier: str, seed: int) -> int:
         for i, r in zip(small, mres):
             mb[i] = r
         corr_fail, direct_fail = [], []
+        # ONE large cel of one colour (2048 x 1280 RGBA, 10 MB decoded - deflate packs it about 1030 : 1 at levels 6 and 9) stored raw and
+        # compressed at levels 0 / 1 / 6 / 9: all five must load and render alike (implementation only; images compared as digests)
+        upx = bytes([40, 80, 120, 255]) * (2048 * 1280)
+        uni = []
+        for tag, ct, zl_ in (("raw", 0, 0), ("zlib level 0", 2, 0), ("zlib level 1", 2, 1), ("zlib level 6", 2, 6), ("zlib level 9", 2, 9)):
+            fr = ase.Frame(chunks=[ase.LayerChunk(name="u"), ase.CelChunk(layer=0, w=2048, h=1280, pixels=upx, ctype_cel=ct, zlevel=zl_)])
+            uni.append((tag, w.put(ase.serialize(ase.Sprite(width=2048, height=1280, frames=[fr])))))
+        ub = vplib.impl_observe("release", [p_ for _, p_ in uni], w.dir, 3, extra_env={"VERIF_IMAGE_DIGEST": "65536"}, mem_kb=6000000, shards=5, tag="uniform")
+        for (tag, p_), b in zip(uni, ub):
+            if b is None or outcome(b) != 0 or ub[0] is None or b[0] != ub[0][0]:
+                direct_fail.append({"what": "a 2048 x 1280 cel of one colour stored as '%s' does not load like the same cel stored raw" % tag,
+                                    "outcome": outcome(b), "comments": b[1][:3] if b else None})
         # the same files through the path-based entry point (read_file) and through a small BufReader: same result as the slice
         lines = []
         for pth in paths:
@@ -2399,7 +2476,9 @@ def c10_program(seq: List[str], uds: List[dict], splits: Tuple[int, ...] = ()):
             free = [l for l in range(nlayers) if l not in cels0]
             if not free:
                 return None
-            l = free[0]
+            # the first cel chunk of a frame goes to the HIGHEST free layer, the next ones to the lowest: cel chunks need not come in
+            # layer order, and each keeps the record that follows it
+            l = free[-1] if not cels0 and len(free) > 1 else free[0]
             cels0.add(l)
             chunks0.append(ase.CelChunk(layer=l, w=1, h=1, pixels=b"\1\2\3\4", ctype_cel=0))
             ctx = ("cel", fidx, l)
